@@ -2,6 +2,7 @@ import json, os, sys, time
 import vlib, mcdrive
 
 ASSUME = [
+    'every transition is first executed twice without any deviation on fresh instances in the same process: a different result is reported as a violation (process-global state left behind by an earlier execution influences the result); such findings are re-executed in five fresh processes',
     'map iteration order is owned through the overlaid runtime (tools/rtpatch.py): every range over a map with >=2 elements on the harness goroutine is a choice point; for maps of <=8 elements the alternatives are all rotations the runtime can produce (8<<B start positions, capped at 16 for larger maps)',
     'wall clock owned through the overlaid time.Now; replica B runs shifted by +400d 3h 7m 11s',
     'deviation bound: one deviating choice point per transition (all pairs in the thorough tier); the prefix is replayed with default choices',
@@ -56,13 +57,13 @@ def run(tier):
         seed = int(os.environ.get('VERIF_SEED', '0') or 0)
         if seed and work:
             k = seed % len(work); work = work[k:] + work[:k]
-        wf = os.path.join(sd, 'c01-work.json')
-        json.dump(work, open(wf, 'w'))
-        env2 = dict(env); env2.update({'VERIF_ALPHA': 'reduced', 'VERIF_WORK': wf})
-        lvl2 = vlib.run_workers(rtbin, 'TestVerifC01', vlib.NCPU, env=env2)
+        env2 = dict(env); env2.update({'VERIF_ALPHA': 'reduced'})
+        lvl2 = vlib.run_workers(rtbin, 'TestVerifC01', vlib.NCPU, env=env2, per_worker_env=vlib.shard_work(work, vlib.NCPU, 'c01-work'))
     allr = ra + lvl2
+    unstable = any('identical re-execution' in v.get('sig', '') for r in allr for v in (r.get('violations') or []))
     for r in allr:
-        if 'HARNESS-NONDETERMINISM' in (r.get('note') or ''):
+        # (when the baseline itself is unstable -- reported as a violation -- deviating runs cannot line up either)
+        if 'HARNESS-NONDETERMINISM' in (r.get('note') or '') and not unstable:
             print(r['note']); raise SystemExit(3)
     exhaustive = all(r.get('exhaustive', True) for r in allr) and bool(lvl2)
     for r in allr:
@@ -75,7 +76,7 @@ def run(tier):
     new, _ = vlib.classify('C01', merged)
     for v in new[:20]:
         if v.get('prop') != 'C01': continue
-        rr = mcdrive.reexecute(rtbin, v, 5, test='TestVerifC01')
+        rr = mcdrive.reexecute(rtbin, v, 5, test='TestVerifC01', fresh_each='identical re-execution' in v['sig'])
         if not rr['identical'] or not rr['reproduced']:
             print('HARNESS-NONDETERMINISM: %s did not reproduce identically: %s' % (v['sig'], rr['runs'])); raise SystemExit(3)
     # glue conformance (real statemachine.go glue vs mirror)
